@@ -265,6 +265,11 @@ class Fn:
         d = self.dominators()
         return b in d and a in d[b]
 
+    def call_dominates_stmt(self, call_bb, stmt_bb):
+        """a call is its block's terminator: it precedes a *statement* of block B on every path only if its block strictly dominates B
+        (a statement of the call's own block runs before the call)"""
+        return call_bb != stmt_bb and self.dominates(call_bb, stmt_bb)
+
     def exits(self):
         """blocks whose terminator is `return`"""
         return [i for i, b in enumerate(self.blocks) if b["term"] and b["term"]["k"] == "return" and not b["cleanup"]]
